@@ -27,14 +27,18 @@ QUERIES = [("sample", 3), ("value", 1), ("jacobian", 2), ("solve", 2), ("substag
 
 
 @st.composite
-def simple_constraint(draw, sp):
+def simple_constraint(draw, sp, roots_ok=False):
     tsig = gen.leaves_of([d for d in sp["states"] if not d.get("quad")]) + gen.leaves_of(sp["controls"])
     kind = draw(st.sampled_from(["path", "path", "t0", "tf"]))
     a = draw(st.sampled_from(tsig))
     b = E.C(draw(gen.small()))
     rel = draw(st.sampled_from(["<=", ">=", "=="])) if kind != "path" else draw(st.sampled_from(["<=", ">="]))
     if kind == "path":
-        return {"lhs": [a], "rel": rel, "rhs": [b], "grid": None, "include_first": draw(st.booleans()), "include_last": True}
+        # every grid a path constraint can live on (collocation roots only while the method is DirectCollocation)
+        grid = gen.weighted(draw, [(None, 3), ("integrator", 1)] + ([("integrator_roots", 2)] if roots_ok else []))
+        if grid == "integrator_roots":
+            return {"lhs": [a], "rel": rel, "rhs": [b], "grid": grid}
+        return {"lhs": [a], "rel": rel, "rhs": [b], "grid": grid, "include_first": draw(st.booleans()), "include_last": True}
     return {"lhs": [["at_t0" if kind == "t0" else "at_tf", a]], "rel": rel, "rhs": [b], "grid": None}
 
 
@@ -43,7 +47,9 @@ def strategy_(draw):
     sp = draw(gen.base_ocp(horizons=("num", "free"), maxN=3, maxM=2, degrees=(1, 2, 3), allow_alg=False,
                            table_kw={"shapes": [(1, 1), (1, 1), (2, 1)], "max_params": 2, "max_vars": 1}))
     sp["objective"] = [draw(c05.objective_term(sp))]
-    sp["constraints"] = [draw(simple_constraint(sp)) for _ in range(draw(st.integers(0, 2)))]
+    cur_dc = sp["method"]["cls"] == "DC"
+    sp["constraints"] = [draw(simple_constraint(sp, roots_ok=cur_dc)) for _ in range(draw(st.integers(0, 2)))]
+    roots_live = any(c.get("grid") == "integrator_roots" for c in sp["constraints"])
     sp["initial"] = []
     sp["solver"] = ["ipopt", {"ipopt.max_iter": draw(st.integers(0, 3))}]
     has_sub = draw(st.integers(0, 3)) == 0
@@ -74,15 +80,21 @@ def strategy_(draw):
                 continue
             ops.append(["set_initial", d["name"], draw(gen.small())])
         elif kind == "subject_to":
-            ops.append(["subject_to", draw(simple_constraint(sp))])
+            c = draw(simple_constraint(sp, roots_ok=cur_dc))
+            roots_live = roots_live or c.get("grid") == "integrator_roots"
+            ops.append(["subject_to", c])
         elif kind == "clear_constraints":
             ops.append(["clear_constraints"])
+            roots_live = False
         elif kind == "add_objective":
             ops.append(["add_objective", draw(c05.objective_term(sp))])
         elif kind == "method":
             mcls = draw(st.sampled_from(["MS", "SS", "DC"]))
             if sp.get("next") and mcls == "DC":
                 mcls = "MS"
+            if roots_live:
+                mcls = "DC"     # shooting methods refuse constraints on collocation roots
+            cur_dc = mcls == "DC"
             if mcls == "DC":
                 mm = draw(gen.collocation_method(maxN=3, maxM=2, degrees=(1, 2, 3)))
             else:
